@@ -523,6 +523,68 @@ fn run_table(cx: &mut Ctx, ch: &Channel) {
     let _ = cx.probe.tap();
 }
 
+/// Operations that take a handle (an exchange) declared on *another* channel: the method goes
+/// out on the channel of the handle the operation is called on, naming both, and nothing
+/// appears on the other channel.
+fn cross_channel_handles(cx: &mut Ctx, ch: &Channel) {
+    let (probe2, ch2) = ChannelProbe::open(131072, cx.chan + 1, 64);
+    let _ = probe2.tap();
+    let t = FieldTable::new();
+    let q = ch.queue_declare_nowait("q-here", QueueDeclareOptions::default()).expect("queue");
+    let here = ch.exchange_declare_nowait(ExchangeType::Direct, "x-here", ExchangeDeclareOptions::default()).expect("ex");
+    let there = ch2.exchange_declare_nowait(ExchangeType::Direct, "x-there", ExchangeDeclareOptions::default()).expect("ex");
+    let _ = cx.probe.tap();
+    let _ = probe2.tap();
+    let rk = "rk";
+    let bind = |dst: &str, src: &str, nowait: bool| AMQPClass::Exchange(exchange::AMQPMethod::Bind(exchange::Bind { ticket: 0, destination: dst.into(), source: src.into(), routing_key: rk.into(), nowait, arguments: FieldTable::new() }));
+    let unbind = |dst: &str, src: &str, nowait: bool| AMQPClass::Exchange(exchange::AMQPMethod::Unbind(exchange::Unbind { ticket: 0, destination: dst.into(), source: src.into(), routing_key: rk.into(), nowait, arguments: FieldTable::new() }));
+    let a = json!({"other_handle_on_channel": cx.chan + 1});
+    let mut done = |cx: &mut Ctx, op: &str, ok: bool, want: AMQPClass| {
+        cx.check(op, &a, ok, "call failed".into());
+        cx.expect_one(op, a.clone(), want);
+        let other = probe2.tap();
+        cx.part.evaluations += 1;
+        cx.part.distinct_nontrivial += 1;
+        if !other.is_empty() {
+            cx.part.violation(&format!("api:{}:other-channel-used", op), format!("{} with a handle of channel {}: {} message(s) were sent through that channel", op, cx.chan + 1, other.len()), json!({"engine":"seqx","check":"api","op":op,"args":a}));
+        }
+    };
+    // (a sync call issued on the wrong channel waits for ever: the stall watchdog of `run`
+    // turns that into a verdict)
+    let both = |cx: &Ctx, m: AMQPClass| cx.preload_method(m);
+    // the nowait variants first: if one goes out on the wrong channel it still returns and is
+    // reported as such; a sync call on the wrong channel would wait for ever (stall watchdog)
+    let r = here.bind_to_source_nowait(&there, rk, t.clone());
+    done(cx, "Exchange::bind_to_source_nowait[x-channel]", r.is_ok(), bind("x-here", "x-there", true));
+    let r = here.bind_to_destination_nowait(&there, rk, t.clone());
+    done(cx, "Exchange::bind_to_destination_nowait[x-channel]", r.is_ok(), bind("x-there", "x-here", true));
+    let r = here.unbind_from_source_nowait(&there, rk, t.clone());
+    done(cx, "Exchange::unbind_from_source_nowait[x-channel]", r.is_ok(), unbind("x-here", "x-there", true));
+    let r = here.unbind_from_destination_nowait(&there, rk, t.clone());
+    done(cx, "Exchange::unbind_from_destination_nowait[x-channel]", r.is_ok(), unbind("x-there", "x-here", true));
+    let r = q.bind_nowait(&there, rk, t.clone());
+    done(cx, "Queue::bind_nowait[x-channel]", r.is_ok(), AMQPClass::Queue(queue::AMQPMethod::Bind(queue::Bind { ticket: 0, queue: "q-here".into(), exchange: "x-there".into(), routing_key: rk.into(), nowait: true, arguments: FieldTable::new() })));
+    both(cx, AMQPClass::Exchange(exchange::AMQPMethod::BindOk(exchange::BindOk {})));
+    let r = here.bind_to_source(&there, rk, t.clone());
+    done(cx, "Exchange::bind_to_source[x-channel]", r.is_ok(), bind("x-here", "x-there", false));
+    both(cx, AMQPClass::Exchange(exchange::AMQPMethod::BindOk(exchange::BindOk {})));
+    let r = here.bind_to_destination(&there, rk, t.clone());
+    done(cx, "Exchange::bind_to_destination[x-channel]", r.is_ok(), bind("x-there", "x-here", false));
+    both(cx, AMQPClass::Exchange(exchange::AMQPMethod::UnbindOk(exchange::UnbindOk {})));
+    let r = here.unbind_from_source(&there, rk, t.clone());
+    done(cx, "Exchange::unbind_from_source[x-channel]", r.is_ok(), unbind("x-here", "x-there", false));
+    both(cx, AMQPClass::Exchange(exchange::AMQPMethod::UnbindOk(exchange::UnbindOk {})));
+    let r = here.unbind_from_destination(&there, rk, t.clone());
+    done(cx, "Exchange::unbind_from_destination[x-channel]", r.is_ok(), unbind("x-there", "x-here", false));
+    both(cx, AMQPClass::Queue(queue::AMQPMethod::BindOk(queue::BindOk {})));
+    let r = q.bind(&there, rk, t.clone());
+    done(cx, "Queue::bind[x-channel]", r.is_ok(), AMQPClass::Queue(queue::AMQPMethod::Bind(queue::Bind { ticket: 0, queue: "q-here".into(), exchange: "x-there".into(), routing_key: rk.into(), nowait: false, arguments: FieldTable::new() })));
+    both(cx, AMQPClass::Queue(queue::AMQPMethod::UnbindOk(queue::UnbindOk {})));
+    let r = q.unbind(&there, rk, t.clone());
+    done(cx, "Queue::unbind[x-channel]", r.is_ok(), AMQPClass::Queue(queue::AMQPMethod::Unbind(queue::Unbind { ticket: 0, queue: "q-here".into(), exchange: "x-there".into(), routing_key: rk.into(), arguments: FieldTable::new() })));
+    std::mem::forget(ch2);
+}
+
 static PROGRESS: std::sync::atomic::AtomicU64 = std::sync::atomic::AtomicU64::new(0);
 static LAST_OP: std::sync::Mutex<String> = std::sync::Mutex::new(String::new());
 
@@ -542,7 +604,10 @@ pub fn run(args: &Args) {
     let (tx, rx) = std::sync::mpsc::channel::<()>();
     let a2 = Args { tier: args.tier.clone(), out: args.out.clone(), rest: args.rest.clone() };
     std::thread::spawn(move || {
-        run_inner(&a2);
+        if let Err(e) = catch_unwind(AssertUnwindSafe(|| run_inner(&a2))) {
+            eprintln!("MACHINERY: api table panicked: {}", crate::slots::panic_msg(&e));
+            return;
+        }
         let _ = tx.send(());
     });
     let mut seen = 0u64;
@@ -587,6 +652,7 @@ fn run_inner(args: &Args) {
     // Connection::open_channel: Channel.Open on the requested id
     cx.expect_one("Connection::open_channel", json!({"id":chan}), AMQPClass::Channel(channel::AMQPMethod::Open(channel::Open { out_of_band: "".into() })));
     run_table(&mut cx, &ch);
+    cross_channel_handles(&mut cx, &ch);
     // Channel::close
     cx.preload_method(AMQPClass::Channel(channel::AMQPMethod::CloseOk(channel::CloseOk {})));
     let r = ch.close();
